@@ -21,8 +21,13 @@ func init() {
 		ruleCaptureAfterReposition(c, r)
 		ruleCbcsPatterns(c, r)
 		ruleCodecStringVerbatim(c, r)
+		fmt.Println("progress loops", ruleLoopProgress(c, r, nil))
+		fmt.Println("hdrfirst", ruleHeaderAfterState(c, r, map[string]bool{"mp4": true}))
+		fmt.Println("hdrsize", ruleHeaderSizeIsSize(c, r))
+		fmt.Println("omode", ruleAdoptLeavesLazy(c, r))
+		fmt.Println("opair", ruleLazySampleCounted(c, r))
 		for _, o := range r.Obls {
-			if o.Status != Discharged || !strings.HasPrefix(o.Key, "L-SHAREDCHILD") {
+			if o.Status != Discharged || !strings.HasPrefix(o.Key, "L-SHAREDCHILD") && !strings.HasPrefix(o.Key, "L-PROGRESS") && !strings.HasPrefix(o.Key, "O-HDRFIRST") {
 				fmt.Println(o.Status, o.Key, o.Pos, o.Detail)
 			}
 		}
@@ -943,4 +948,729 @@ func ruleReaderResultCapacity(c *Ctx, r *Report, scope func(*ssa.Function) bool)
 		}
 	}
 	return n
+}
+
+// ---- value widths: how many bits a value can occupy ---------------------------------------------------------------
+
+// maxBits: an upper bound on the number of significant bits of an unsigned value, from what the code shows: a
+// constant, a reader call with a constant width (Read(n), ReadBits(n), ReadFlag), a conversion (the narrower of the
+// two), a field (the widest value stored to it anywhere in the repository library), a parameter of an unexported
+// function (the widest argument at its call sites), a sum (one more than its widest operand). Anything else: the
+// width of its type.
+func maxBits(c *Ctx, v ssa.Value, depth int, seen map[ssa.Value]bool) int {
+	tb := typeBits(v.Type())
+	if tb <= 0 {
+		tb = 64
+	}
+	if depth > 6 || seen[v] {
+		return tb
+	}
+	seen[v] = true
+	defer delete(seen, v)
+	min := func(a, b int) int {
+		if a < b {
+			return a
+		}
+		return b
+	}
+	switch x := v.(type) {
+	case *ssa.Const:
+		if x.Value == nil {
+			return 0
+		}
+		if u, ok := constant.Uint64Val(constant.ToInt(x.Value)); ok {
+			return bits.Len64(u)
+		}
+		return tb
+	case *ssa.Convert:
+		return min(tb, maxBits(c, x.X, depth+1, seen))
+	case *ssa.ChangeType:
+		return min(tb, maxBits(c, x.X, depth+1, seen))
+	case *ssa.Call:
+		name := ""
+		if x.Call.IsInvoke() {
+			name = x.Call.Method.Name()
+		} else if sc := x.Call.StaticCallee(); sc != nil {
+			name = sc.Name()
+		}
+		switch name {
+		case "ReadFlag":
+			return 1
+		case "Read", "ReadBits":
+			if len(x.Call.Args) > 0 {
+				if cs, ok := constSet(x.Call.Args[len(x.Call.Args)-1], 0); ok && len(cs) > 0 {
+					_, hi := minMax(cs)
+					return min(tb, int(hi))
+				}
+			}
+		case "ReadUint8":
+			return min(tb, 8)
+		case "ReadUint16":
+			return min(tb, 16)
+		}
+		return tb
+	case *ssa.BinOp:
+		switch x.Op {
+		case token.ADD:
+			a, b := maxBits(c, x.X, depth+1, seen), maxBits(c, x.Y, depth+1, seen)
+			if b > a {
+				a = b
+			}
+			return min(tb, a+1)
+		case token.AND:
+			return min(maxBits(c, x.X, depth+1, seen), maxBits(c, x.Y, depth+1, seen))
+		case token.SHR:
+			return maxBits(c, x.X, depth+1, seen)
+		case token.REM:
+			return min(tb, maxBits(c, x.Y, depth+1, seen))
+		}
+		return tb
+	case *ssa.Phi:
+		m := 0
+		for _, e := range x.Edges {
+			if b := maxBits(c, e, depth+1, seen); b > m {
+				m = b
+			}
+		}
+		return min(tb, m)
+	case *ssa.UnOp:
+		if x.Op != token.MUL {
+			return tb
+		}
+		fa, ok := x.X.(*ssa.FieldAddr)
+		if !ok {
+			return tb
+		}
+		fv := fieldVar(fa.X.Type(), fa.Field)
+		if fv == nil {
+			return tb
+		}
+		m, n := 0, 0
+		for _, st := range c.fieldStores()[fv] {
+			n++
+			if b := maxBits(c, st.Val, depth+1, seen); b > m {
+				m = b
+			}
+		}
+		if n == 0 {
+			return tb
+		}
+		return min(tb, m)
+	case *ssa.Parameter:
+		f := x.Parent()
+		if f == nil || f.Object() == nil || f.Object().Exported() {
+			return tb
+		}
+		idx := -1
+		for i, p := range f.Params {
+			if p == x {
+				idx = i
+			}
+		}
+		node := c.CallGraph().Nodes[f]
+		if idx < 0 || node == nil || len(node.In) == 0 {
+			return tb
+		}
+		m := 0
+		for _, e := range node.In {
+			if e.Site == nil {
+				return tb
+			}
+			args := e.Site.Common().Args
+			if e.Site.Common().IsInvoke() || idx >= len(args) {
+				return tb
+			}
+			if b := maxBits(c, args[idx], depth+1, seen); b > m {
+				m = b
+			}
+		}
+		return min(tb, m)
+	}
+	return tb
+}
+
+var fieldStoreCache = map[*Ctx]map[*types.Var][]*ssa.Store{}
+
+// fieldStores: every store through a FieldAddr in the repository library, by field.
+func (c *Ctx) fieldStores() map[*types.Var][]*ssa.Store {
+	if m, ok := fieldStoreCache[c]; ok {
+		return m
+	}
+	m := map[*types.Var][]*ssa.Store{}
+	for _, f := range c.RepoFuncs(nil) {
+		for _, b := range f.Blocks {
+			for _, ins := range b.Instrs {
+				if st, ok := ins.(*ssa.Store); ok {
+					if fa, ok := st.Addr.(*ssa.FieldAddr); ok {
+						if fv := fieldVar(fa.X.Type(), fa.Field); fv != nil {
+							m[fv] = append(m[fv], st)
+						}
+					}
+				}
+			}
+		}
+	}
+	fieldStoreCache[c] = m
+	return m
+}
+
+// narrowWrap: v is (a widening of) a sum computed in 8 or 16 bits one of whose operands can occupy all the bits of
+// that type: the sum wraps (x+1 is 0 for x = 255). Returns the sum.
+func narrowWrap(c *Ctx, v ssa.Value) *ssa.BinOp {
+	for {
+		switch x := v.(type) {
+		case *ssa.Convert:
+			v = x.X
+			continue
+		case *ssa.ChangeType:
+			v = x.X
+			continue
+		}
+		break
+	}
+	bo, ok := v.(*ssa.BinOp)
+	if !ok || bo.Op != token.ADD {
+		return nil
+	}
+	tb := typeBits(bo.Type())
+	if tb != 8 && tb != 16 {
+		return nil
+	}
+	if bt, ok := bo.Type().Underlying().(*types.Basic); !ok || bt.Info()&types.IsUnsigned == 0 {
+		return nil
+	}
+	for _, o := range []ssa.Value{bo.X, bo.Y} {
+		if _, isC := o.(*ssa.Const); isC {
+			continue
+		}
+		if maxBits(c, o, 0, map[ssa.Value]bool{}) >= tb {
+			return bo
+		}
+	}
+	return nil
+}
+
+// ---- G-NILFIELD: a slice field that is indexed is assigned somewhere -----------------------------------------------
+
+// ruleNilFieldIndexed (G-NILFIELD): a slice-typed struct field that a function in scope indexes (s.f[i], read or
+// written) is stored to somewhere in the repository library (an assignment, an append, or a composite literal naming
+// it). A field nobody assigns is nil wherever it is indexed: the first index panics. Returns the number of distinct
+// fields indexed.
+func ruleNilFieldIndexed(c *Ctx, r *Report, rule string, scope func(*ssa.Function) bool) int {
+	stores := c.fieldStores()
+	seen := map[*types.Var]bool{}
+	n := 0
+	for _, f := range libFuncs(c, scope) {
+		for _, b := range f.Blocks {
+			for _, ins := range b.Instrs {
+				ia, ok := ins.(*ssa.IndexAddr)
+				if !ok {
+					continue
+				}
+				ld, ok := ia.X.(*ssa.UnOp)
+				if !ok || ld.Op != token.MUL {
+					continue
+				}
+				fa, ok := ld.X.(*ssa.FieldAddr)
+				if !ok {
+					continue
+				}
+				if _, isSl := ld.Type().Underlying().(*types.Slice); !isSl {
+					continue
+				}
+				fv := fieldVar(fa.X.Type(), fa.Field)
+				if fv == nil || seen[fv] {
+					continue
+				}
+				// only objects the function creates itself: no caller can have filled the field
+				if _, own := fa.X.(*ssa.Alloc); !own {
+					continue
+				}
+				seen[fv] = true
+				n++
+				key := fmt.Sprintf("%s.%s", typeName(fa.X.Type()), fv.Name())
+				if len(stores[fv]) == 0 && !fieldSetByLiteralOrReflect(c, fv) {
+					r.Bad(rule, key, c.Pos(ia.Pos()), fmt.Sprintf("the slice field %s is indexed in %s but nothing in the library ever assigns it: it is nil here and the index panics", key, SSAFuncName(f)))
+				} else {
+					r.OK(rule, key, c.Pos(ia.Pos()), "the indexed slice field is assigned somewhere in the library")
+				}
+			}
+		}
+	}
+	return n
+}
+
+// fieldSetByLiteralOrReflect: an exported field of an exported type can be set by callers; such a field counts as
+// assigned only if the indexing function is not a decoder of its own result. Kept conservative: only fields whose
+// address is taken (passed on) count here.
+func fieldSetByLiteralOrReflect(c *Ctx, fv *types.Var) bool {
+	for _, f := range c.RepoFuncs(nil) {
+		for _, b := range f.Blocks {
+			for _, ins := range b.Instrs {
+				fa, ok := ins.(*ssa.FieldAddr)
+				if !ok || fieldVar(fa.X.Type(), fa.Field) != fv || fa.Referrers() == nil {
+					continue
+				}
+				for _, ref := range *fa.Referrers() {
+					switch y := ref.(type) {
+					case *ssa.UnOp, *ssa.Store:
+						_ = y
+					default:
+						return true // address escapes (call argument, MakeInterface, …)
+					}
+				}
+			}
+		}
+	}
+	return false
+}
+
+// ---- L-PROGRESS: a loop that runs while a cursor is below a bound moves the cursor on every turn ---------------
+
+// ruleLoopProgress (L-PROGRESS): in a loop whose header tests a variable of the loop against a loop-invariant bound
+// (`for pos < len(data)`), no edge back to the header carries the variable unchanged: a `continue` placed before the
+// cursor is advanced spins for ever on the input that takes it. Loops whose header test involves a second loop
+// variable, or whose unchanged edge is under a test of something the iteration changed, are outside the rule.
+// Returns the number of loops looked at.
+func ruleLoopProgress(c *Ctx, r *Report, scope func(*ssa.Function) bool) int {
+	n := 0
+	for _, f := range libFuncs(c, scope) {
+		for li, l := range naturalLoops(f) {
+			h := l.header
+			if len(h.Instrs) == 0 {
+				continue
+			}
+			ifi, ok := h.Instrs[len(h.Instrs)-1].(*ssa.If)
+			if !ok {
+				continue
+			}
+			bo, ok := ifi.Cond.(*ssa.BinOp)
+			if !ok {
+				continue
+			}
+			switch bo.Op {
+			case token.LSS, token.LEQ, token.GTR, token.GEQ, token.NEQ:
+			default:
+				continue
+			}
+			var phi *ssa.Phi
+			var other ssa.Value
+			for i, o := range []ssa.Value{bo.X, bo.Y} {
+				v := o
+				for {
+					if cv, ok := v.(*ssa.Convert); ok {
+						v = cv.X
+						continue
+					}
+					// pos+4 < n
+					if ab, ok := v.(*ssa.BinOp); ok && (ab.Op == token.ADD || ab.Op == token.SUB) {
+						if _, isC := ab.Y.(*ssa.Const); isC {
+							v = ab.X
+							continue
+						}
+					}
+					break
+				}
+				if p, ok := v.(*ssa.Phi); ok && p.Block() == h {
+					phi, other = p, []ssa.Value{bo.Y, bo.X}[i]
+				}
+			}
+			if phi == nil || !loopInvariant(other, l, 0) {
+				continue
+			}
+			// a loop variable proper: some edge from inside the loop carries a new value
+			changes := false
+			for i, pr := range h.Preds {
+				if l.blocks[pr] && phi.Edges[i] != ssa.Value(phi) {
+					changes = true
+				}
+			}
+			if !changes {
+				continue
+			}
+			// a loop that hands a reader (interface or pointer) to a callee may make progress there: not judged
+			external := false
+			for b := range l.blocks {
+				for _, ins := range b.Instrs {
+					call, ok := ins.(ssa.CallInstruction)
+					if !ok {
+						continue
+					}
+					cc := call.Common()
+					if cc.IsInvoke() {
+						external = true
+					}
+					for _, a := range cc.Args {
+						switch a.Type().Underlying().(type) {
+						case *types.Interface, *types.Pointer:
+							if _, isMI := a.(*ssa.MakeInterface); !isMI {
+								external = true
+							}
+						}
+					}
+				}
+			}
+			if external {
+				continue
+			}
+			n++
+			key := fmt.Sprintf("%s:loop#%d on %s", SSAFuncName(f), li, srcOfExpr2(f, phi))
+			bad := false
+			for i, pr := range h.Preds {
+				if !l.blocks[pr] {
+					continue
+				}
+				if phi.Edges[i] == ssa.Value(phi) {
+					// the only other way out of such a turn would be another header variable: none (the test is on phi alone)
+					r.Bad("L-PROGRESS", key, c.Pos(firstPos(pr)), "an edge back to the loop test leaves the tested variable unchanged: on the input that takes it the loop never ends")
+					bad = true
+					break
+				}
+			}
+			if !bad {
+				r.OK("L-PROGRESS", key, c.Pos(ifi.Pos()), "every edge back to the loop test carries a new value of the tested variable")
+			}
+		}
+	}
+	return n
+}
+
+// ---- O-HDRFIRST: nothing Size() looks at changes once the header is written ----------------------------------------
+
+// recvFieldStores: the receiver's fields f stores to, directly or through methods called on the same receiver (depth 2),
+// with the instruction of f at which the store (or the call leading to it) happens.
+func recvFieldStores(f *ssa.Function, depth int, seen map[*ssa.Function]bool) map[string][]ssa.Instruction {
+	out := map[string][]ssa.Instruction{}
+	if f == nil || len(f.Params) == 0 || depth > 2 || seen[f] {
+		return out
+	}
+	seen[f] = true
+	defer delete(seen, f)
+	recv := f.Params[0]
+	for _, b := range f.Blocks {
+		for _, ins := range b.Instrs {
+			switch x := ins.(type) {
+			case *ssa.Store:
+				if fa, ok := x.Addr.(*ssa.FieldAddr); ok && fa.X == ssa.Value(recv) {
+					out[fieldNameOf(fa)] = append(out[fieldNameOf(fa)], ins)
+				}
+			case *ssa.Call:
+				h := x.Call.StaticCallee()
+				if h == nil || len(x.Call.Args) == 0 || x.Call.Args[0] != ssa.Value(recv) || h.Signature.Recv() == nil {
+					continue
+				}
+				for fld := range recvFieldStores(h, depth+1, seen) {
+					out[fld] = append(out[fld], ins)
+				}
+			}
+		}
+	}
+	return out
+}
+
+// ruleHeaderAfterState (O-HDRFIRST): in the EncodeSW / Encode method of a box type, no store to a receiver field that
+// Size() reads (directly or through a method called on the receiver) is reachable from the call that writes the box
+// header: the size field already written was computed from the old value. SencBox.EncodeSW settles the sub-sample
+// flag (setSubSamplesUsedFlag) before EncodeHeaderSW for this reason. Returns the number of encoders looked at.
+func ruleHeaderAfterState(c *Ctx, r *Report, pkgs map[string]bool) int {
+	n := 0
+	byType := map[string]map[string]*ssa.Function{}
+	for _, f := range c.RepoFuncs(IsLib) {
+		if f.Synthetic != "" || f.Signature.Recv() == nil || f.Pkg == nil || !pkgs[f.Pkg.Pkg.Name()] || f.Parent() != nil {
+			continue
+		}
+		tn := f.Pkg.Pkg.Name() + "." + typeName(f.Signature.Recv().Type())
+		if byType[tn] == nil {
+			byType[tn] = map[string]*ssa.Function{}
+		}
+		byType[tn][f.Name()] = f
+	}
+	var names []string
+	for tn := range byType {
+		names = append(names, tn)
+	}
+	sort.Strings(names)
+	for _, tn := range names {
+		ms := byType[tn]
+		size := ms["Size"]
+		if size == nil {
+			continue
+		}
+		sz := map[string]bool{}
+		recvFieldReads(size, nil, 0, sz, map[*ssa.Function]bool{}, ms)
+		if len(sz) == 0 {
+			continue
+		}
+		for _, en := range []string{"Encode", "EncodeSW"} {
+			enc := ms[en]
+			if enc == nil || len(enc.Blocks) == 0 {
+				continue
+			}
+			var hdr ssa.Instruction
+			for _, b := range enc.Blocks {
+				for _, ins := range b.Instrs {
+					if call, ok := ins.(*ssa.Call); ok {
+						if h := call.Call.StaticCallee(); h != nil && strings.HasPrefix(h.Name(), "EncodeHeader") && hdr == nil {
+							hdr = ins
+						}
+					}
+				}
+			}
+			if hdr == nil {
+				continue
+			}
+			n++
+			key := tn + "." + en + ":state-settled-before-header"
+			reach := blockReach(enc)
+			bad := ""
+			var at token.Pos
+			stores := recvFieldStores(enc, 0, map[*ssa.Function]bool{})
+			var flds []string
+			for fld := range stores {
+				flds = append(flds, fld)
+			}
+			sort.Strings(flds)
+			for _, fld := range flds {
+				if !sz[fld] {
+					continue
+				}
+				for _, ins := range stores[fld] {
+					if ins != hdr && insReaches(hdr, ins, reach) {
+						bad, at = fld, ins.Pos()
+					}
+				}
+			}
+			if bad != "" {
+				r.Bad("O-HDRFIRST", key, c.Pos(at), fmt.Sprintf("%s, which Size() reads, is stored after the box header was written: the size field carries the value computed before the change while the body is written after it", bad))
+			} else {
+				r.OK("O-HDRFIRST", key, c.Pos(hdr.Pos()), "no field Size() reads is stored after the header call")
+			}
+		}
+	}
+	return n
+}
+
+// ---- DEP: the header size of the twin mdat encoders is Size() --------------------------------------------------
+
+// ruleHeaderSizeIsSize (DEP): where a box's Encode / EncodeSW passes an explicit size to EncodeHeaderWithSize[SW], the
+// value is the result of the type's own Size() (conversions aside): MdatBox.Size() is what accounts for a lazily
+// written payload and for the header form. Returns the number of such calls.
+func ruleHeaderSizeIsSize(c *Ctx, r *Report) int {
+	n := 0
+	for _, f := range c.RepoFuncs(IsLib) {
+		if f.Synthetic != "" || f.Signature.Recv() == nil || f.Pkg == nil || f.Pkg.Pkg.Name() != "mp4" || (f.Name() != "Encode" && f.Name() != "EncodeSW") {
+			continue
+		}
+		for _, b := range f.Blocks {
+			for _, ins := range b.Instrs {
+				call, ok := ins.(*ssa.Call)
+				if !ok {
+					continue
+				}
+				h := call.Call.StaticCallee()
+				if h == nil || !strings.HasPrefix(h.Name(), "EncodeHeaderWithSize") || len(call.Call.Args) < 2 {
+					continue
+				}
+				n++
+				key := fmt.Sprintf("mp4.%s.%s:header-size-is-Size()", typeName(f.Signature.Recv().Type()), f.Name())
+				v := call.Call.Args[1]
+				for {
+					if cv, ok := v.(*ssa.Convert); ok {
+						v = cv.X
+						continue
+					}
+					break
+				}
+				ok2 := false
+				if sc, isCall := v.(*ssa.Call); isCall {
+					if g := sc.Call.StaticCallee(); g != nil && g.Name() == "Size" && len(sc.Call.Args) > 0 && sc.Call.Args[0] == ssa.Value(f.Params[0]) {
+						ok2 = true
+					}
+				}
+				if ok2 {
+					r.OK("DEP", key, c.Pos(call.Pos()), "the size handed to the header writer is the box's own Size()")
+				} else {
+					r.Bad("DEP", key, c.Pos(call.Pos()), "the size handed to the header writer is not the result of the box's own Size(): the twin encoder and Size() (lazy payload, header form) can disagree with the header written here")
+				}
+			}
+		}
+	}
+	return n
+}
+
+// ---- O-MODE: adopting a payload leaves lazy mode ---------------------------------------------------------------
+
+// ruleAdoptLeavesLazy (O-MODE): a MdatBox method that stores a caller's slice to Data (SetData) stores 0 to every
+// field the result of IsLazy() depends on (lazyDataSize): otherwise the box keeps reporting, sizing and reading itself
+// as a lazily held payload although the bytes are now in memory.
+func ruleAdoptLeavesLazy(c *Ctx, r *Report) int {
+	isLazy := c.ssaFunc(r, "O-MODE", "mp4", "MdatBox.IsLazy")
+	if isLazy == nil {
+		return 0
+	}
+	mode := map[string]bool{}
+	for _, b := range isLazy.Blocks {
+		if ret, ok := b.Instrs[len(b.Instrs)-1].(*ssa.Return); ok && len(ret.Results) == 1 {
+			for k := range backSlice(c, ret.Results[0], 0) {
+				if k.kind == "field" {
+					mode[k.name[strings.LastIndex(k.name, ".")+1:]] = true
+				}
+			}
+		}
+	}
+	if len(mode) == 0 {
+		r.Undecided("O-MODE", "mp4.MdatBox.IsLazy", c.Pos(isLazy.Pos()), "IsLazy depends on no field")
+		return 0
+	}
+	n := 0
+	for _, f := range c.RepoFuncs(IsLib) {
+		if f.Synthetic != "" || f.Signature.Recv() == nil || f.Pkg == nil || f.Pkg.Pkg.Name() != "mp4" || typeName(f.Signature.Recv().Type()) != "MdatBox" || len(f.Params) == 0 {
+			continue
+		}
+		adopts := false
+		zeroed := map[string]bool{}
+		for _, b := range f.Blocks {
+			for _, ins := range b.Instrs {
+				st, ok := ins.(*ssa.Store)
+				if !ok {
+					continue
+				}
+				fa, ok := st.Addr.(*ssa.FieldAddr)
+				if !ok || fa.X != ssa.Value(f.Params[0]) {
+					continue
+				}
+				fv := fieldVar(fa.X.Type(), fa.Field)
+				if fv == nil {
+					continue
+				}
+				if _, isPar := st.Val.(*ssa.Parameter); isPar && fv.Name() == "Data" {
+					adopts = true
+				}
+				if cs, isC := st.Val.(*ssa.Const); isC && (cs.Value == nil || constant.Sign(constant.ToInt(cs.Value)) == 0) {
+					zeroed[fv.Name()] = true
+				}
+			}
+		}
+		if !adopts {
+			continue
+		}
+		n++
+		key := "mp4.MdatBox." + f.Name() + ":leaves-lazy-mode"
+		var missing []string
+		for fld := range mode {
+			if !zeroed[fld] {
+				missing = append(missing, fld)
+			}
+		}
+		sort.Strings(missing)
+		if len(missing) > 0 {
+			r.Bad("O-MODE", key, c.Pos(f.Pos()), "the method adopts the caller's payload but does not clear "+strings.Join(missing, ", ")+", which IsLazy() decides on: Size(), ReadData and CopyData keep treating the box as lazily held")
+		} else {
+			r.OK("O-MODE", key, c.Pos(f.Pos()), "adopting a payload clears what IsLazy() decides on")
+		}
+	}
+	return n
+}
+
+// ---- O-PAIR (lazy): a sample added without its bytes is counted in the lazy size ---------------------------------
+
+// ruleLazySampleCounted (O-PAIR): in a function that both adds a sample to a trun (TrunBox.AddSample) and accumulates
+// MdatBox.lazyDataSize, no return is reachable from an AddSample call without passing the accumulation: the mdat
+// header written later declares the payload from that sum.
+func ruleLazySampleCounted(c *Ctx, r *Report) int {
+	n := 0
+	for _, f := range libFuncs(c, func(f *ssa.Function) bool { return strings.HasPrefix(SSAFuncName(f), "mp4.") }) {
+		var adds []ssa.Instruction
+		var accs []ssa.Instruction
+		for _, b := range f.Blocks {
+			for _, ins := range b.Instrs {
+				switch x := ins.(type) {
+				case *ssa.Call:
+					if h := x.Call.StaticCallee(); h != nil && h.Name() == "AddSample" && h.Signature.Recv() != nil && typeName(h.Signature.Recv().Type()) == "TrunBox" {
+						adds = append(adds, ins)
+					}
+				case *ssa.Store:
+					if fa, ok := x.Addr.(*ssa.FieldAddr); ok {
+						if fv := fieldVar(fa.X.Type(), fa.Field); fv != nil && fv.Name() == "lazyDataSize" {
+							if bo, isBo := x.Val.(*ssa.BinOp); isBo && bo.Op == token.ADD {
+								accs = append(accs, ins)
+							}
+						}
+					}
+				}
+			}
+		}
+		if len(adds) == 0 || len(accs) == 0 {
+			continue
+		}
+		n++
+		key := SSAFuncName(f) + ":sample-added-is-counted"
+		cut := map[*ssa.BasicBlock]bool{}
+		for _, a := range accs {
+			cut[a.Block()] = true
+		}
+		bad := token.NoPos
+		found := false
+		for _, a := range adds {
+			// counted later in the same block?
+			same := false
+			seenAdd := false
+			for _, ins := range a.Block().Instrs {
+				if ins == a {
+					seenAdd = true
+				}
+				if seenAdd {
+					for _, acc := range accs {
+						if ins == acc {
+							same = true
+						}
+					}
+				}
+			}
+			if same {
+				continue
+			}
+			seen := map[*ssa.BasicBlock]bool{}
+			var walk func(b *ssa.BasicBlock) bool
+			walk = func(b *ssa.BasicBlock) bool {
+				if seen[b] || cut[b] {
+					return false
+				}
+				seen[b] = true
+				if _, isRet := b.Instrs[len(b.Instrs)-1].(*ssa.Return); isRet && !blockRejectsDefinitely(b) {
+					return true
+				}
+				for _, s := range b.Succs {
+					if walk(s) {
+						return true
+					}
+				}
+				return false
+			}
+			start := a.Block()
+			// the block of the call itself: not cut (the accumulation, if in this block, comes before the call)
+			delete(cut, start)
+			if walk(start) {
+				bad, found = a.Pos(), true
+			}
+			for _, acc := range accs {
+				cut[acc.Block()] = true
+			}
+		}
+		if found {
+			r.Bad("O-PAIR", key, c.Pos(bad), "a sample is added to a trun on a path that returns without adding its size to the mdat's lazy data size: the mdat header declares fewer bytes than are copied after it")
+		} else {
+			r.OK("O-PAIR", key, c.Pos(adds[0].Pos()), "every path from a trun AddSample to a return passes the lazy size accumulation")
+		}
+	}
+	return n
+}
+
+// blockRejectsDefinitely: the block returns a definitely non-nil error as its last result.
+func blockRejectsDefinitely(b *ssa.BasicBlock) bool {
+	ret, ok := b.Instrs[len(b.Instrs)-1].(*ssa.Return)
+	if !ok || len(ret.Results) == 0 {
+		return false
+	}
+	return definiteError(ret.Results[len(ret.Results)-1])
 }
